@@ -1,0 +1,88 @@
+//go:build verif
+
+package lex
+
+// Verification hooks for property C10 (add-only, compiled with -tags verif only):
+// exported wrappers around the unexported charset algebra, escape decoding and the Regexp AST.
+
+// VerifHexval exposes hexval.
+func VerifHexval(r rune) rune { return hexval(r) }
+
+// VerifOctval exposes octval.
+func VerifOctval(r rune) rune { return octval(r) }
+
+// VerifNewCharset exposes newCharset (the argument is sorted and compacted in place).
+func VerifNewCharset(r []rune) []rune { return newCharset(r) }
+
+// VerifAppendRange exposes appendRange.
+func VerifAppendRange(r []rune, lo, hi rune) []rune { return appendRange(r, lo, hi) }
+
+// VerifInvert exposes charset.invert.
+func VerifInvert(c []rune, opts CharsetOptions) []rune {
+	cs := charset(c)
+	cs.invert(opts)
+	return cs
+}
+
+// VerifSubtract exposes charset.subtract.
+func VerifSubtract(c, oth []rune) []rune {
+	cs := charset(c)
+	cs.subtract(charset(oth))
+	return cs
+}
+
+// VerifIntersect exposes intersect.
+func VerifIntersect(a, b []rune) []rune { return intersect(charset(a), charset(b)) }
+
+// VerifFold exposes charset.fold.
+func VerifFold(c []rune, ascii bool) []rune {
+	cs := charset(c)
+	cs.fold(ascii)
+	return cs
+}
+
+// VerifAppendNamedSet exposes appendNamedSet followed by newCharset (as parseEscape uses it).
+func VerifAppendNamedSet(name string, opts CharsetOptions) ([]rune, error) {
+	r, err := appendNamedSet(nil, name, opts)
+	if err != nil {
+		return nil, err
+	}
+	return newCharset(r), nil
+}
+
+// VerifParseEscape runs parseEscape on src (which must start with a backslash) and returns the
+// resulting set, the number of bytes consumed and the recorded error, if any.
+func VerifParseEscape(src string, opts CharsetOptions, standalone bool) (set []rune, consumed int, err *ParseError) {
+	var p parser
+	p.source = src
+	p.next()
+	cs := p.parseEscape(opts, standalone)
+	if p.err.Msg != "" {
+		e := p.err
+		return nil, p.offset, &e
+	}
+	return append([]rune(nil), cs...), p.offset, nil
+}
+
+// VerifRegexp is a plain view of a parsed Regexp.
+type VerifRegexp struct {
+	Op      int // 0 literal, 1 bytes literal, 2 char class, 3 repeat, 4 concat, 5 alternate, 6 external
+	Sub     []*VerifRegexp
+	Charset []rune
+	Min     int
+	Max     int
+	Text    string
+	Offset  int
+}
+
+// VerifView converts a Regexp into its exported view.
+func VerifView(re *Regexp) *VerifRegexp {
+	if re == nil {
+		return nil
+	}
+	ret := &VerifRegexp{Op: int(re.op), Charset: append([]rune(nil), re.charset...), Min: re.min, Max: re.max, Text: re.text, Offset: re.offset}
+	for _, s := range re.sub {
+		ret.Sub = append(ret.Sub, VerifView(s))
+	}
+	return ret
+}
